@@ -10,3 +10,23 @@ CHECKS["C01"] = dict(
     parts=[P("histories", "^TestC01Histories$", shards=(12, 16)), P("faultenum", "^TestC01FaultEnum$", shards=(4, 16))],
     floor=50,
 )
+
+CHECKS["C03"] = dict(
+    level="fault_enumeration",
+    technique="crash-point enumeration at the Backend/LockBackend boundary (calls park forever; tile-batch subsets) incl. crashes inside recovery, judged by restart + byte-exact storage audit at the lock checkpoint + further round; online staging-discard monitor",
+    text="For each tile-boundary (start size, pool size) the op sequence of the round is learnt from a recorded run and every crash point is enumerated (each sequential op applied/not; every subset of the parallel tile batch when it has <=6 uploads, else seeded subsets incl. all single-missing/single-present), each followed by recoveries that are themselves crashed inside their re-upload batch; after the final clean restart LoadLog must succeed, every tile of the lock-committed tree must exist with exactly the prescribed bytes, a further round must commit and publish, and every earlier acknowledgement must still hold. A second workload kills the instance right after acknowledgements. Online: a staging bundle may only be discarded once the published checkpoint covers it.",
+    note="Crash model: the process stops at a storage/lock call boundary, the in-flight call applied or not (as the property states); nothing of the dead instance runs afterwards. Trusted: harness stores, reference renderer of the Static CT layout.",
+    design_ref="DESIGN.md section 3, C03",
+    parts=[P("crashenum", "^TestC03CrashEnum$", shards=(16, 16)), P("ackcrash", "^TestC03AckThenCrash$", shards=(4, 16))],
+    floor=500,
+)
+
+CHECKS["C04"] = dict(
+    level="exploration",
+    technique="online StorageAudit monitor at every checkpoint publication (byte-exact reference rendering of hash/data/names tiles and issuers, restricted to uploads completed before the checkpoint upload was issued) + Immutable and DiscardOnlyStaging monitors on every call",
+    text="At the instant each checkpoint upload takes effect, every object the Static CT layout requires for that size must exist among uploads that had returned earlier, with bytes equal to an independent rendering of the harness-known leaf sequence (hash tiles, gunzipped data tiles, names tiles line by line, issuers by fingerprint; leaf i carries index i and a timestamp <= the tree head's). Every Upload is checked against earlier versions of immutable keys and every Discard must name a staging bundle. ~260 (thorough ~5000) histories with all entry shapes and fault/crash plans plus long growth runs across tile boundaries.",
+    note="Trusted: harness object store (S3-like blind overwrite so that a rewrite is observable), reference encoders, crypto/x509 for the names-tile expectation. Entries whose certificate cannot be DER are required to contribute no names line; lenient-parser cases are not judged.",
+    design_ref="DESIGN.md section 3, C04",
+    parts=[P("audit", "^TestC04Audit$", shards=(12, 16)), P("growth", "^TestC04Growth$", shards=(4, 4))],
+    floor=100,
+)
